@@ -120,12 +120,24 @@ def run_script(ctx, exe, lines, idx):
     return models, impls, r
 
 
+def run_model(lines, tries=30):
+    """C.run_model, waiting while another builder relinks the shared uvmodel executable"""
+    import time
+    for k in range(tries):
+        try:
+            return C.run_model("C11", lines)
+        except (FileNotFoundError, PermissionError, OSError):
+            if k == tries - 1:
+                raise
+            time.sleep(2)
+
+
 def model_run(fix, scripts):
     """scripts: list of lists of MODEL lines -> list of lists of model outputs"""
     lines = []
     for s in scripts:
         lines += ["FIX " + " ".join("1" if fix[f] else "0" for f in FLAGS), "RESET", "WATCH %d" % WATCH] + s
-    out = C.run_model("C11", lines)
+    out = run_model(lines)
     res, pos = [], 0
     for s in scripts:
         res.append(out[pos + 3: pos + 3 + len(s)])
@@ -1024,7 +1036,7 @@ def run(ctx):
         rq.append("REPLAY %d %s" % (0 if "replay" in unfixed else 1, " ".join("%d.%d.%s" % (t, dp, k) for t, dp, k, _ in st)))
     incoherent = 0
     if rq:
-        ro = C.run_model("C11", rq)
+        ro = run_model(rq)
         for (name, tid, st), line in zip(streams, ro):
             coh = line.split()[0] == "coh=1"
             if not coh:
